@@ -244,8 +244,14 @@ CMR_ERROR CMRnetworkTestMatrix(CMR* cmr, CMR_CHRMAT* matrix, bool* pisNetwork, b
   CMR_CALL( CMRchrmatPrintDense(cmr, matrix, stdout, '0', true) );
 #endif /* CMR_DEBUG */
 
-  CMR_CALL( CMRnetworkTestTranspose(cmr, transpose, pisNetwork, psupportIsGraphic, pdigraph, pforestArcs,
-    pcoforestArcs, parcsReversed, psubmatrix, stats, timeLimit) );
+  CMR_ERROR error = CMRnetworkTestTranspose(cmr, transpose, pisNetwork, psupportIsGraphic, pdigraph, pforestArcs,
+    pcoforestArcs, parcsReversed, psubmatrix, stats, timeLimit);
+  if (error)
+  {
+    /* E.g., a timeout: free the transpose before passing the error on. */
+    CMR_CALL( CMRchrmatFree(cmr, &transpose) );
+    return error;
+  }
 
   /* Transpose minimal non-conetwork matrix to become a minimal non-network matrix. */
   if (psubmatrix && *psubmatrix)
